@@ -113,6 +113,25 @@ def oracle(F, a, sf, sq):
     return r
 
 
+def _object_reports(ctx, F, so, pp, hist_):
+    """every third tabulated point of the object's Erhg curves against the framework and the standalone models at the object's own parameters"""
+    from DHLLDV import homogeneous as Ho_, heterogeneous as He_, stratified as St_
+    base = (so.Dp, so.D50, so.epsilon, so.nu, so.rhol, so.rhos)
+    ec = so.Erhg_curves
+    for i_, v_ in list(enumerate(so.vls_list))[::3]:
+        ctx.count('evaluations')
+        a_ = (v_, base[0], base[1], base[2], base[3], base[4], base[5], so.Cv)
+        want = F.Cvs_Erhg(*a_, get_dict=True)
+        got = {'Cvs_Erhg': ec['Cvs_Erhg'][i_], 'FB': ec['FB'][i_], 'SB': ec['SB'][i_], 'He': ec['He'][i_], 'Ho': ec['Ho'][i_]}
+        exp = {'Cvs_Erhg': want[want['regime']], 'FB': St_.fb_Erhg(*a_), 'SB': St_.Erhg(*a_), 'He': He_.Erhg(*a_, F.use_sf, F.use_sqrtcx), 'Ho': Ho_.Erhg(*a_)}
+        bad = [k for k in got if not rel_close(got[k], exp[k], 1e-12)]
+        if bad or ec['Cvs_regime'][i_] not in (want['regime'], F.Cvs_regime(*a_)):
+            ctx.violation(f'slurry object reports {got} / {ec["Cvs_regime"][i_]!r} at {v_} m/s; the framework and the standalone models give {exp} / {want["regime"]!r} for the same slurry',
+                          {'slurry': pp, 'history': hist_, 'vls': v_, 'object': {'Dp': so.Dp, 'D50': so.D50, 'Cv': so.Cv, 'rhos': so.rhos}}, key='selection-law')
+            return False
+    return True
+
+
 def monitor(ctx, extended=False):
     from DHLLDV import DHLLDV_framework as F
     n = ctx.n(3000, 200000) * (4 if extended else 1)
@@ -167,19 +186,31 @@ def monitor(ctx, extended=False):
                                         and pp['D50'] * pp['r85'] <= 0.5 * d_ and pp['D50'] <= 0.25 * d_] or [pp['Dp']])
                 so.Dp = newDp
                 hist_ += ['curves read', f'Dp={newDp}']
-            base = (so.Dp, so.D50, so.epsilon, so.nu, so.rhol, so.rhos)
-            ec = so.Erhg_curves
-            for i_, v_ in list(enumerate(so.vls_list))[::3]:
-                ctx.count('evaluations')
-                a_ = (v_, base[0], base[1], base[2], base[3], base[4], base[5], so.Cv)
-                want = F.Cvs_Erhg(*a_, get_dict=True)
-                got = {'Cvs_Erhg': ec['Cvs_Erhg'][i_], 'FB': ec['FB'][i_], 'SB': ec['SB'][i_], 'He': ec['He'][i_], 'Ho': ec['Ho'][i_]}
-                exp = {'Cvs_Erhg': want[want['regime']], 'FB': St_.fb_Erhg(*a_), 'SB': St_.Erhg(*a_), 'He': He_.Erhg(*a_, F.use_sf, F.use_sqrtcx), 'Ho': Ho_.Erhg(*a_)}
-                bad = [k for k in got if not rel_close(got[k], exp[k], 1e-12)]
-                if bad or ec['Cvs_regime'][i_] not in (want['regime'], F.Cvs_regime(*a_)):
-                    ctx.violation(f'slurry object reports {got} / {ec["Cvs_regime"][i_]!r} at {v_} m/s; the framework and the standalone models give {exp} / {want["regime"]!r} for the same slurry',
-                                  {'slurry': pp, 'history': hist_, 'vls': v_}, key='selection-law')
-                    break
+            if not _object_reports(ctx, F, so, pp, hist_):
+                continue
+            # a near twin: a second object (or the same one after an edit) whose parameters agree with the first to the digits a display shows but are not
+            # equal reports ITS OWN values; and a shallow copy (how the pipeline makes its per-diameter slurries) that is edited and read leaves the original's report alone
+            import copy as _copy
+            kind = k_ % 4
+            if kind in (0, 1):
+                pp2 = dict(pp)
+                which = ctx.rng.choice(['Cv', 'D50', 'Dp'])
+                pp2[which] = pp[which] * (1 + ctx.rng.choice([1e-4, -1e-4, 3e-5]))
+                so2 = E.make_slurry(pp2, max_index=8)
+                if not _object_reports(ctx, F, so2, pp2, hist_ + [f'second object with {which}={pp2[which]!r} built and read']):
+                    continue
+                so.Cv = so.Cv * (1 + 2e-4)
+                if not _object_reports(ctx, F, so, pp, hist_ + [f'Cv={so.Cv!r}']):
+                    continue
+            else:
+                twin = _copy.copy(so)
+                newCv = min(0.45, max(0.02, so.Cv * ctx.rng.choice([0.5, 1.5])))
+                twin.Cv = newCv
+                h2 = hist_ + ['copy.copy taken', f'copy.Cv={newCv!r}']
+                if not _object_reports(ctx, F, twin, pp, h2 + ['copy read']):
+                    continue
+                if not _object_reports(ctx, F, so, pp, h2 + ['copy read', 'original read again']):
+                    continue
             nu_, rhol_ = so.nu, so.rhol
             for cname, frac in (('LDV_curves', 0.5), ('LDV85_curves', 0.85)):
                 d_ = so.get_dx(frac)
